@@ -157,7 +157,7 @@ func checkC17(sc *SerCase, rec *evid.Rec) (vs []pbt.Violation) {
 	}
 	// "populated ... by parsing": parse the bytes into an empty message of the
 	// same template and judge what THAT message puts on the wire
-	if b1 != nil && len(vs) == 0 && st.TrailerPop == 0 && gen.DuplicateTag(&sc.Tpl) == "" && !hasBlankEntry(&sc.Case) {
+	if b1 != nil && len(vs) == 0 && gen.DuplicateTag(&sc.Tpl) == "" && !hasBlankEntry(&sc.Case) {
 		if e, err := build.Empty(&sc.Tpl); err == nil {
 			if perr, pan := parse(true, e, append([]byte(nil), b1...)); perr == nil && pan == nil {
 				keep := m
@@ -207,8 +207,8 @@ func TestC17(t *testing.T) {
 // hasBlankEntry reports whether some group entry lacks its first field (such
 // messages are outside what the parser is required to read back).
 func hasBlankEntry(c *gen.Case) bool {
-	h, b, _ := gen.Wire(c)
-	leaves := append(h, b...)
+	h, b, tr := gen.Wire(c)
+	leaves := append(append(h, b...), tr...)
 	for i, l := range leaves {
 		if l.Count {
 			n := 0
